@@ -101,15 +101,63 @@ def merge(a, b):
             a[k] = a.get(k, 0) + v
 
 
+def _task(job):
+    """one chunk of a check; every failure is tagged with what regenerates it: all random choices of a chunk derive from
+    its seed, so `./check <id> --replay <file>` re-runs exactly that chunk on the current tree"""
+    modname, tier, args = job
+    import importlib
+    mod = importlib.import_module(modname)
+    fails, nf, st, sample, nd = mod.worker(args)
+    for f in fails:
+        f.setdefault("regenerate", {"chunk_cases": args[0], "chunk_seed": args[1], "tier": tier,
+                                    "how": "corpus entries" if args[0] == -1 else "random.Random(chunk_seed) drives every choice of the chunk"})
+    return fails, nf, st, sample, nd
+
+
+def replay(prop, path, matcher_fn=None):
+    """re-execute, on the current tree, the chunk(s) that produced the failures stored in a replay file"""
+    import importlib
+    mod = importlib.import_module("harness." + prop.lower())
+    j = json.load(open(path))
+    lean_info, lean_problems = core.lean_stage(prop)
+    recs = [j] if j.get("regenerate") else [c for c in j.get("diverging_cases", []) if c.get("regenerate")]
+    chunks = sorted({(r["regenerate"]["chunk_cases"], r["regenerate"]["chunk_seed"], r["regenerate"].get("tier", "quick")) for r in recs})
+    wanted = {r.get("what") for r in recs}
+    known = core.load_known_findings(prop)
+    mf = matcher_fn or getattr(mod, "matcher", None) or matcher
+    found = []
+    for n, s, tier in chunks:
+        if prop == "C10":
+            os.environ["VERIF_C10_TIER"] = tier
+        fails, nf, st, sample, nd = mod.worker((n, s))
+        print(f"re-ran chunk cases={n} seed={s} tier={tier}: {nf} failure(s)")
+        found += [f for f in fails if mf(f, known) is None]
+    same = [f for f in found if f.get("what") in wanted]
+    for f in (same or found)[:3]:
+        print(json.dumps({k: v for k, v in f.items() if k != "case"}, indent=1, default=str)[:3000])
+    if lean_problems:
+        print("Lean stage: " + "; ".join(lean_problems)[:2000])
+    if found or lean_problems:
+        concrete = any(f.get("kind") == "property" for f in found)
+        print(f"VIOLATION property={prop} replay={path}" + ("" if concrete else " no-failing-input-found"))
+        return 1
+    if not chunks:
+        print("the replay file names no chunk to regenerate (Lean-stage problem only); the Lean stage passes on the current tree")
+    print("replay passes on the current tree")
+    return 0
+
+
 def main(tier, seed, prop="C04", worker_fn=None, rule=None, assumptions=None, matcher_fn=None, corpus_task=False):
     t0 = time.time()
     lean_info, lean_problems = core.lean_stage(prop)
     n = 320 if tier == "quick" else 6000
     chunks = 16 if tier == "quick" else 64
     tasks = ([(-1, 0)] if corpus_task else []) + [(n // chunks, seed * 7919 + i) for i in range(chunks)]
+    modname = (worker_fn or worker).__module__
+    tasks = [(modname, tier, t) for t in tasks]
     failures, nfail, stats, samples, distinct = [], 0, {}, [], 0
     with mp.Pool(min(16, os.cpu_count() or 4)) as pool:
-        for fails, nf, st, sample, nd in pool.imap_unordered(worker_fn or worker, tasks):
+        for fails, nf, st, sample, nd in pool.imap_unordered(_task, tasks):
             failures += fails; nfail += nf; distinct += nd
             merge(stats, st)
             if sample and len(samples) < 3:
